@@ -31,6 +31,11 @@ class SStr(SV):
     pass
 
 
+class STerm(SV):
+    """A z3 term of an uninterpreted sort (only equality is available)."""
+    pass
+
+
 class Obj:
     """Heap object with concrete identity.  cls is a ClassInfo or ExtClass."""
     _ids = itertools.count(1)
